@@ -9,7 +9,8 @@ PID = "C16"
 LEVEL = "exploration"
 RULE = ("random box points (position variables also at 0, 1 and 1e-6 from either end, near 1 for DTLZ4's 100th power), "
         "m=2..6, dimension m+9 for DTLZ2-4 and k=1..12 for DTLZ1, Python floats and numpy.float64: sum/norm identities with an "
-        "independently recomputed distance function g, ZDT1 and bi-objective identities, non-negativity. non-trivial = point "
+        "independently recomputed distance function g, ZDT1 and bi-objective identities, non-negativity; one object per family "
+        "over 20000 (thorough 70000) evaluations with sentinel points re-evaluated every 4096. non-trivial = point "
         "with at least one position variable != 0.5; distinct by (family, m, point)")
 ASSUMPTIONS = ["relative tolerance 1e-9 on the identities"]
 SHARDS = {"quick": 1, "thorough": 16}
@@ -28,6 +29,9 @@ def cases(ctx):
     for fam in ("DTLZI", "DTLZII", "DTLZIII", "DTLZIV", "ZDT1", "BiObjectiveTestProblem"):
         for rep in range(ctx.pick(3, 60)):
             yield "threads", {"family": fam, "seed": ctx.subseed("th", fam, rep)}
+    for fam in ("DTLZI", "DTLZII", "DTLZIII", "DTLZIV", "ZDT1", "BiObjectiveTestProblem"):
+        for rep in range(ctx.pick(1, 4)):
+            yield "long_history", {"family": fam, "seed": ctx.subseed("lh", fam, rep), "points": ctx.pick(20000, 70000)}
     for rep in range(ctx.pick(40, 9600)):
         yield "zdt1", {"seed": ctx.subseed("z", rep), "points": ctx.pick(300, 600)}
         yield "biobj", {"seed": ctx.subseed("b", rep), "points": ctx.pick(300, 600)}
@@ -158,6 +162,53 @@ def run_case(ctx, name, params):
                     ctx.violation("%s/norm_identity" % fam, "objective vector has norm %r, 1+g is %r" % (got, exp), wit())
                     return
             ctx.sample({"family": fam, "m": m, "x": x[:4] + ["..."], "f": f}, fam, 1)
+    elif name == "long_history":
+        # one benchmark object over a long run (an optimisation evaluates tens of thousands of designs on one problem object): a few
+        # sentinel points are evaluated first and again every 4096 evaluations and at the end -- every answer must be the first one
+        fam = params["family"]
+        m = 3 if fam.startswith("DTLZ") else 2
+        n = {"DTLZI": 7, "ZDT1": 6, "BiObjectiveTestProblem": 2}.get(fam, m + 9)
+        if fam.startswith("DTLZ"):
+            prob = hooks.tame(getattr(bp, fam)(dimension=n, m=m))
+        else:
+            prob = hooks.tame(getattr(bp, fam)())
+            n = len(prob.parameters)
+        box = [tuple(q["bounds"]) for q in prob.parameters]
+        mk = lambda: [lb + r.random() * (ub - lb) for lb, ub in box]
+        sentinels = [mk() for _ in range(4)] + [[(lb + ub) / 2 for lb, ub in box], [lb for lb, ub in box], [ub for lb, ub in box]]
+        first = []
+        for x in sentinels:
+            first.append([float(v) for v in prob.evaluate(Individual(list(x)))])
+        total = params["points"]
+        for k in range(total):
+            x = mk()
+            f = [float(v) for v in prob.evaluate(Individual(x))]
+            ctx.count("long_history_evaluations")
+            if k % 16 == 0:
+                if fam == "DTLZI":
+                    okk = oracles.close(sum(f), 0.5 * (1 + g_dtlz1(x[m - 1:])), REL, 1e-9)
+                elif fam.startswith("DTLZ"):
+                    g = g_dtlz2(x[m - 1:]) if fam in ("DTLZII", "DTLZIV") else g_dtlz1(x[m - 1:])
+                    okk = oracles.close(math.sqrt(sum(v * v for v in f)), 1 + g, REL, 1e-9)
+                elif fam == "ZDT1":
+                    g = 1 + 9 * sum(x[1:]) / (n - 1)
+                    okk = oracles.close(f[1], g * (1 - math.sqrt(f[0] / g)), REL, 1e-9) and oracles.close(f[0], x[0], REL, 1e-12)
+                else:
+                    okk = oracles.close(f[0] * f[1], 1 + x[1], REL, 1e-9)
+                if not okk or any(v < -1e-12 or not math.isfinite(v) for v in f):
+                    ctx.violation("%s/identity_in_long_history" % fam, "%s violates its defining identity at evaluation %d on one object" % (fam, k),
+                                  {"x": x, "f": f})
+                    return
+            if k % 4096 == 4095 or k == total - 1:
+                for x0, f0 in zip(sentinels, first):
+                    f1 = [float(v) for v in prob.evaluate(Individual(list(x0)))]
+                    ctx.count("sentinel_re_evaluations")
+                    if f1 != f0:
+                        ctx.violation("%s/sentinel_changed_in_long_history" % fam, "%s answers %r for a point it answered %r before (%d evaluations "
+                                      "of other points on the same object in between)" % (fam, f1, f0, k + 1), {"x": x0})
+                        return
+        ctx.nontrivial(("lh", fam, params["seed"]))
+        ctx.count("cases")
     elif name == "threads":
         # one benchmark object evaluated by three threads at once (max_processes>1 does that), statement-level yields inside the
         # benchmark code: every call must return the objectives of ITS point
